@@ -1,6 +1,6 @@
 SPECIFICATION Spec
 CONSTANTS
-  Roles = {"client_gm", "server_gm", "server_auto_gm", "client_tls", "server_tls", "server_auto_tls", "client_tls10", "server_tls10", "client_tls_ecdhe"}
+  Roles = {"client_gm", "server_gm", "server_auto_gm", "client_tls", "server_tls", "server_auto_tls", "client_tls10", "server_tls10", "client_tls_ecdhe", "server_auto_tls10"}
   InjTypes = {"HREQ", "CH", "SH", "NST", "CERT", "CERT_RSA", "SKE", "CREQ", "SHD", "CKE", "CV", "FIN", "CSTATUS", "NPN", "UNK", "CERT_RSA2", "CERT_SM2"}
   Truncs = {"body1", "bodyhalf", "bodyminus1", "len+1", "len-1", "len0", "lenmax", "inner+", "inner-",
             "cutend2", "cutend3", "cutend4", "cutend5", "cutend8", "cutend16", "cutend32", "cutend64"}
